@@ -61,3 +61,12 @@ CHECKS["C07"] = dict(
     level_text="Random search with budgets placed at the boundaries of what each generated traversal needs; exact-count oracles. One defect (N=1) found and fixed.",
     level_note="Trusts the reference traversal for 'needed'.",
     technique="rapid property-based testing, boundary-value budgets against a reference traversal", design_ref="DESIGN.md §4 C07")
+
+CHECKS["C03"] = dict(
+    pkg="props/c03", level="exploration", gomaxprocs=1,
+    rule="one real responder (store = generated subset of a generated DAG), a scripted requestor sending 1-2 New requests one after the other, each with a generated mix of do-not-send-first-blocks (0-5), do-not-send-cids (0-4 blocks), dedup-by-key, or one malformed extension payload. Oracle (reference traversal over the responder's store on plain ipld-prime): concatenated metadata across response messages = the reference link-load list, each marked Present/Missing; every block that must be sent (present, index > skip, not in do-not-send-cids, first occurrence) is in the same message as its metadata entry, byte-identical to the store, carried once; no other block; exactly one terminal status, last: complete-full iff nothing missing, complete-partial otherwise, content-not-found iff the root is missing; malformed payload => failed-unknown. Non-trivial: >= 3 link loads and a missing link, a repeated link or an extension.",
+    assumptions=_SIM_ASSUME + ["a repeated link whose first occurrence fell inside the skipped prefix MAY be sent or withheld (the statement is read in the code's favour)"],
+    quick=dict(shards=2, timeout=400), thorough=dict(shards=16, timeout=3000),
+    level_text="Random search over DAG x responder store x selector x extension combinations with an exact wire-transcript oracle from an independent reference traversal.",
+    level_note="Trusts go-ipld-prime's walk and the wire decoder.",
+    technique="rapid property-based testing, wire transcript vs reference traversal", design_ref="DESIGN.md §4 C03")
